@@ -137,6 +137,24 @@ namespace OpenMEEG {
             return res;
         }
 
+        // Number of command line arguments that look like options (they start with '-').
+        // Options listed in ignored (e.g. flags that can be combined with any other option) are not counted.
+
+        unsigned num_options(const List& ignored={}) const {
+            unsigned res = 0;
+            for (char** arg=args+1; arg!=end(); ++arg) {
+                if ((*arg)[0]!='-')
+                    continue;
+                bool counted = true;
+                for (const char* name : ignored)
+                    if (std::string(name)==*arg)
+                        counted = false;
+                if (counted)
+                    ++res;
+            }
+            return res;
+        }
+
         void print() const {
             std::cout << std::endl << "| ------ " << args[0] << std::endl;
             for (unsigned i=1; i<n; ++i)
